@@ -494,7 +494,7 @@ def build_gpt(entries=(('prot_ok', 0),) + (('empty', 0),) * 3, length=5120,
 
 # ---------------------------------------------------------------------- luks
 
-def build_luks(version=1, payload_offset=4096, length=None, fill=1,
+def build_luks(version=1, payload_offset=8, length=None, fill=1,
                payload=2048):
     hdr = bytearray(rnd(fill, 592))
     hdr[0:6] = b'LUKS\xba\xbe'
@@ -505,7 +505,7 @@ def build_luks(version=1, payload_offset=4096, length=None, fill=1,
     hdr[104:108] = struct.pack('>I', payload_offset)
     hdr[510:512] = b'\0\0'
     if length is None:
-        length = payload_offset * 512 + payload
+        length = max(592, payload_offset * 512 + payload)
     data = (bytes(hdr) + rnd(fill + 1, max(0, length - 592)))[:length]
     unsafe = set()
     if version != 1:
